@@ -33,7 +33,7 @@ CHECKS["C12"] = dict(
 CHECKS["C20"] = dict(
     pkg="cluster", tests=[T("TestC20", 150, 60000, shrinktime="60s", timeout_q=1800)], level="exploration",
     technique="property-based testing (rapid) on the un-mocked cluster world; oracle = per-goroutine lock-order invariant over the recorded distributed-lock events",
-    rule="two pods with nodes spread across them, two prefix deployments, then 1-5 operations among create/remove/dissociate/realloc/replace/control/send/set-node/remove-node/remove-pod/capacity/node-resource/pod-resource with include lists in any order, with repeats and across pods, and unsorted workload id lists with duplicates; every CreateLock/Lock/Unlock is recorded with its goroutine; invariant: pod locks before workload locks, strictly ascending keys within a class, node-operation locks only with nothing held and nothing acquired while one is held. Non-trivial = an operation held >= 2 locks at once; distinct by hash of the case",
+    rule="two pods with nodes spread across them, two prefix deployments, then 1-5 operations among create/remove/dissociate/realloc/replace/control/send/set-node/remove-node/remove-pod/capacity/node-resource/pod-resource with include lists in any order, with repeats and across pods, and unsorted workload id lists with duplicates; in ~20% of the cases a final remove of one workload runs while blocked tasks occupy all but 2 or 3 workers of calcium's non-blocking task pool (2: the follow-up remap is refused, 3: accepted — classes 'tight-remove free=N'; its result stream must close and its lock events obey the same invariant); every CreateLock/Lock/Unlock is recorded with its goroutine; invariant: pod locks before workload locks, strictly ascending keys within a class, node-operation locks only with nothing held and nothing acquired while one is held. Non-trivial = an operation held >= 2 locks at once; distinct by hash of the case",
     level_text="Random search over operations and filters; the invariant is checked on the real lock calls of the real code paths (including the asynchronous remap).",
     level_note="Trusted: rapid, the lock wrapper around store.CreateLock, goroutine ids from runtime.Stack. Per goroutine is the right unit because every nesting of locks in calcium is synchronous.",
     design_ref="DESIGN.md §4 C20", assumptions=WORLD_ASSUME)
